@@ -110,6 +110,8 @@ structure Proto where
   vStream : Bool := false  -- QUIC layer: create_stream() given an ID that already has a reader, or after termination
   -- detector (ghost): `feed_data` was called on a reader that already had EOF
   feedAfterEof : Bool := false
+  -- ghost: callers whose awaiting task the application cancelled while their waiter was still pending
+  cancelled : List WaiterId := []
   -- detector (ghost): the server's retire handler raised (KeyError / AssertionError)
   retireFailed : Bool := false
 deriving Repr, DecidableEq, Inhabited
@@ -308,6 +310,16 @@ def ping (c : Ctx) (s : PS) (w : WaiterId) (uid : Nat) (tat : Option Nat) (txevs
 def close (c : Ctx) (s : PS) (tat : Option Nat) (txevs : List Ev) : PS × Option Err :=
   transmit c s tat txevs
 
+/-- The application cancels the task that awaits waiter `w` (`task.cancel()`, `asyncio.wait_for` timing
+    out, …) — a schedule event like any other.  `wait_connected()` and `ping()` await
+    `asyncio.shield(waiter)`: the CancelledError is raised in the caller only, the waiter future is not
+    cancelled and stays registered (`_connected_waiter`, `_ping_waiters[uid]`); `wait_closed()` awaits
+    `asyncio.Event.wait()`, whose private future is removed by the Event itself.  So the adapter state does
+    not change, and `set_result` / `set_exception` in `_process_events` always find a pending future: they
+    never raise InvalidStateError.  The model records the cancellation as a ghost. -/
+def cancelCaller (p : Proto) (w : WaiterId) : Proto :=
+  if w ∈ p.pending then { p with cancelled := p.cancelled ++ [w] } else p
+
 def sentAppend (sent : AL Nat (Bytes × Nat)) (sid : Nat) (d : Bytes) (fin : Bool) : AL Nat (Bytes × Nat) :=
   let (b, n) := (sent.get sid).getD ([], 0)
   sent.set sid (b ++ d, if fin then n + 1 else n)
@@ -411,6 +423,7 @@ inductive Op where
   | waitClosed (c : Nat)
   | ping (c : Nat) (uid : Nat) (tat : Option Nat) (txevs : List Ev)
   | close (c : Nat) (tat : Option Nat) (txevs : List Ev)
+  | cancelCaller (c : Nat) (w : WaiterId)
   | mkStream (c : Nat) (sid : Nat)
   | write (c : Nat) (sid : Nat) (d : Bytes)
   | eof (c : Nat) (sid : Nat)
@@ -500,6 +513,7 @@ def step (w : World) : Op → World × Out
     let (w', o) := w.onConn c (fun ctx s => ping ctx s w.nextWid uid tat txevs)
     ({ w' with nextWid := w.nextWid + 1 }, o)
   | .close c tat txevs => w.onConn c (fun ctx s => close ctx s tat txevs)
+  | .cancelCaller c wd => w.onProto c (fun _ p => cancelCaller p wd)
   | .mkStream c sid => w.onProto c (fun ctx p => createStream ctx p sid)
   | .write c sid d =>
     match w.conns[c]? with
